@@ -593,9 +593,35 @@ pub fn run_case_plan(run: &mut Run, rng: &mut Rng, cfg: &Cfg, iters: usize, faul
     clock::disable();
 }
 
+/// C03, last sentence: the identifiers the CLI gives the tracers of one invocation are non-zero (zero
+/// is accepted by every tracer) and pairwise distinct, for every process id, without overflow.
+/// The real assignment (trippy-tui `app::trace_identifier`, through its verif hook) against the model.
+fn trace_ids(run: &mut Run, rng: &mut Rng, thorough: bool) {
+    let mut pids: Vec<u16> = vec![0, 1, 2, 1023, 1024, 32767, 32768, 65000, 65530, 65531, 65532, 65533, 65534];
+    if thorough { pids = (0..=65534u16).collect(); } else { for _ in 0..60 { pids.push(rng.below(65535) as u16); } }
+    for pid in pids {
+        let n = if thorough { 6 } else { 24 };
+        let mut seen: Vec<u16> = vec![];
+        for i in (0..n).chain([255usize, 256, 65533, 65534]) {
+            let req = format!("tid {pid} {i}");
+            match crate::util::guarded(|| trippy_tui::verif::verif_trace_identifier(pid, i)) {
+                Ok(id) => {
+                    if id == 0 { run.fail("c03-trace-id-zero", req.clone()); }
+                    if seen.contains(&id) { run.fail("c03-trace-id-duplicate", format!("{req} => {id}")); }
+                    seen.push(id);
+                    run.op(req, id.to_string());
+                }
+                Err(m) => { run.fail("c03-trace-id-panic", format!("{req} ({m})")); run.op(req, "panic".into()); }
+            }
+            run.count("op:tid");
+        }
+    }
+}
+
 pub fn run(rng: &mut Rng, thorough: bool, corpus: &[String]) -> Run {
     let mut run = Run::new();
     let _ = corpus;
+    trace_ids(&mut run, rng, thorough);
     let cases = if thorough { 40_000 } else { 1500 };
     for i in 0..cases {
         let mut cfg = gen_cfg(rng, thorough);
